@@ -341,6 +341,46 @@ func setTypeForIntegers(node ast.Node, t reflect.Type) {
 	}
 }
 
+// overflowingLiteral finds an integer literal that setTypeForIntegers would
+// retype to t although t cannot hold its value (negated tells that the literal
+// stands under an odd number of unary minus signs).
+func overflowingLiteral(node ast.Node, t reflect.Type, negated bool) (*ast.IntegerNode, bool) {
+	switch n := node.(type) {
+	case *ast.IntegerNode:
+		value := int64(n.Value)
+		if negated {
+			value = -value
+		}
+		zero := reflect.Zero(dereference(t))
+		switch zero.Kind() {
+		case reflect.Int, reflect.Int8, reflect.Int16, reflect.Int32, reflect.Int64:
+			return n, zero.OverflowInt(value)
+		case reflect.Uint, reflect.Uint8, reflect.Uint16, reflect.Uint32, reflect.Uint64:
+			return n, value < 0 || zero.OverflowUint(uint64(value))
+		}
+	case *ast.UnaryNode:
+		switch n.Operator {
+		case "-", "+":
+			// The sign counts only along a chain of unary operators that
+			// ends in the literal itself: - -1 is 1.
+			switch n.Node.(type) {
+			case *ast.IntegerNode, *ast.UnaryNode:
+				return overflowingLiteral(n.Node, t, negated != (n.Operator == "-"))
+			}
+			return overflowingLiteral(n.Node, t, false)
+		}
+	case *ast.BinaryNode:
+		switch n.Operator {
+		case "+", "/", "-", "*":
+			if lit, ok := overflowingLiteral(n.Left, t, false); ok {
+				return lit, true
+			}
+			return overflowingLiteral(n.Right, t, false)
+		}
+	}
+	return nil, false
+}
+
 // hasDynamicOperand reports whether an arithmetic expression (as recognised by
 // isIntegerOrArithmeticOperation) has an operand of interface type.
 func hasDynamicOperand(node ast.Node) bool {
